@@ -636,8 +636,8 @@ func c20Extra(c *Ctx) {
 	for _, b := range fn.Blocks {
 		for _, in := range b.Instrs {
 			r, ok := in.(*ssa.Return)
-			if !ok || len(r.Results) != 1 {
-				continue
+			if !ok || len(r.Results) == 0 {
+				continue // result #0 is the TTL whatever else (a presence flag) is returned with it
 			}
 			top := Desc(r.Results[0])
 			for _, l := range Origins(top, nil) {
@@ -1605,9 +1605,10 @@ func c12R8(c *Ctx) {
 		switch x := v.(type) {
 		case *ssa.BinOp:
 			if x.Op == token.SUB {
-				if _, ok := x.Y.(*ssa.Const); ok {
-					return isCounter(x.X, d+1)
-				}
+				// counter - 1, or counter - <what the sub-query consumed> (F-C12-1: the
+				// adequacy of the step is C12-R9's business; here the tested value only has
+				// to be the loop-carried counter after its debit)
+				return isCounter(x.X, d+1)
 			}
 		case *ssa.Phi:
 			hasConst, hasDec := false, false
